@@ -5,7 +5,9 @@ import (
 	"encoding/json"
 	"fmt"
 	"os"
+	"path/filepath"
 	"sort"
+	"strings"
 	"sync"
 	"sync/atomic"
 	"time"
@@ -197,6 +199,27 @@ func crashWorkload(args []string) int {
 				_, _, err = klevdb.CompactUpdatesMulti(ctx, px, time.UnixMicro(baseTime+1_000_000_000), noBackoff)
 			}
 			_ = err
+		case "tear":
+			// what an earlier power loss did to unsynced bytes: the newest segment's log (or index,
+			// Target "index") loses its last st.N bytes. Issued while no log is open.
+			mark("B", bm)
+			ents, _ := os.ReadDir(dir)
+			head := ""
+			for _, e := range ents {
+				if strings.HasSuffix(e.Name(), ".log") && len(e.Name()) == 24 && e.Name() > head {
+					head = e.Name()
+				}
+			}
+			path := filepath.Join(dir, head)
+			if st.Target == "index" {
+				path = strings.TrimSuffix(path, ".log") + ".index"
+			}
+			if fi, err := os.Stat(path); head == "" || err != nil || fi.Size()-int64(st.N) < 8 {
+				em.Err = "nothing to tear"
+			} else if err := os.Truncate(path, fi.Size()-int64(st.N)); err != nil {
+				em.Err = err.Error()
+			}
+			mark("E", em)
 		case "die":
 			// the process ends here without Sync or Close (its file descriptors are simply dropped)
 			mark("B", bm)
